@@ -208,6 +208,18 @@ def run(tier):
     wide("or", "SELECT a FROM t1 WHERE lower(name) = 'x' OR k1 = 1" + " OR a = 1" * kk, ["t1"], ["a", "name", "k1"], ["lower"])
     wide("plus", "SELECT f(id) + amount" + " + a" * kk + " FROM t1", ["t1"], ["id", "amount", "a"], ["f"])
     wide("concat", "SELECT g(name) || c" + " || a" * kk + " FROM t1", ["t1"], ["name", "c", "a"], ["g"])
+    # sub-queries in positions that look like "columns only": sort keys (at any depth, inside aggregate calls, WITHIN
+    # GROUP), window definitions, LIMIT / OFFSET / FETCH operands — their tables, columns and functions count too
+    def sub(shape, sql, tables, columns, functions, qcols=None):
+        decoys.append({"sql": sql, "shape": "subquery_in:" + shape, "nodump": True,
+                       "want": {"tables": tables, "columns": columns, "qcolumns": qcols if qcols is not None else [["", c] for c in columns], "functions": functions}})
+    sub("order_by", "SELECT a FROM t1 ORDER BY (SELECT MIN(b) FROM t2 WHERE t2.k1 = t1.k1)", ["t1", "t2"], ["a", "b", "k1"], ["MIN"],
+        [["", "a"], ["", "b"], ["t2", "k1"], ["t1", "k1"]])
+    sub("order_by_nested", "SELECT a FROM (SELECT a FROM t1 ORDER BY (SELECT c FROM t3)) zal1", ["t1", "t3"], ["a", "c"], [])
+    sub("window_order", "SELECT SUM(a) OVER (PARTITION BY b ORDER BY (SELECT c FROM t2)) FROM t1", ["t1", "t2"], ["a", "b", "c"], ["SUM"])
+    sub("window_partition", "SELECT COUNT(a) OVER (PARTITION BY (SELECT id FROM users)) FROM t1", ["t1", "users"], ["a", "id"], ["COUNT"])
+    sub("agg_order_by", "SELECT STRING_AGG(name, ',' ORDER BY (SELECT k1 FROM t3)) FROM t1", ["t1", "t3"], ["name", "k1"], ["STRING_AGG"])
+    sub("case_in_order", "SELECT a FROM t1 ORDER BY CASE WHEN EXISTS (SELECT 1 FROM orders WHERE id = 1) THEN a ELSE b END", ["t1", "orders"], ["a", "id", "b"], [])
     # the same chains as statements of the reference grammar (qgen.flat_chain: distinct names in the first operands),
     # in every layout: oracle here, and below the MODEL correspondences on them (never sampled away, no size limit)
     kc = 160 if quick else 400
